@@ -202,34 +202,44 @@ def menger(rc: RuleCtx, rule_range: Optional[str], rule_crit: Optional[str]):
     env = {"points": pts}
     fr = Frame(ev, fi, 0)
     fr.block(pre, env, TRUE)
-    lists = [k for k, v in env.items() if isinstance(v, Vec) and v.kind == "list"]
-    if len(lists) != 1:
-        raise AnalysisError("menger.knee: cannot identify the curvature list")
-    L = lists[0]
-    head = env[L]
-    ra = range_args(loop)
-    lo = fr.expr(ra[0], env) if ra and len(ra) == 2 else None
-    hi = fr.expr(ra[1], env) if ra and len(ra) == 2 else None
-    i = ev.symbol(loop.target.id)
+    from .common import bind_loop
+    b = bind_loop(ev, fr, loop, env)
+    if b is None:
+        raise AnalysisError("menger.knee: loop header has no recognised shape")
+    lo, hi, i = b.lo, b.hi, b.idx
     benv = dict(env)
-    benv[loop.target.id] = i
-    benv[L] = ev.symbol(L + "@list")
+    benv.update(b.bindings)
+    for nme, v in list(benv.items()):
+        if isinstance(v, Vec) and v.kind == "list":
+            benv[nme] = ev.symbol(nme + "@list")
     out = ev.eval_loop_body(fi, loop, benv)
-    apps = [e for e in out.events if e.kind == "append" and e.target == L]
+    all_apps = [e for e in out.events if e.kind == "append"]
+    if len({e.target for e in all_apps}) != 1 or not isinstance(env.get(all_apps[0].target), Vec):
+        raise AnalysisError("menger.knee: cannot identify the curvature list")
+    L = all_apps[0].target
+    apps = all_apps
+    head = env[L]
+    # after the loop the list is  <what it held before> + <one value per visited i>: a marker stands for the interior block
+    MARK = ev.symbol("interior-curvatures", True)
     fr2 = Frame(ev, fi, 0)
     penv = dict(env)
-    penv[L] = Vec([], "list")
+    penv[L] = Vec(list(head.items) + [MARK], "list")
     fr2.block(post, penv, TRUE)
-    tail_apps = [e for e in fr2.events if e.kind == "append" and e.target == L]
     rets = fr2.returns
-    pad_ok = len(head.items) == 1 and isinstance(head.items[0], Rat) and len(tail_apps) == 1 and isinstance(tail_apps[0].args[0], Rat) \
-        and head.items[0].equals(tail_apps[0].args[0]) and head.items[0].is_const() is not None
-    range_ok = isinstance(lo, Rat) and lo.is_const() == 1 and isinstance(hi, Rat) and hi.equals(sym("n") - C(1))
-    one_app = len(apps) == 1 and apps[0].guard.kind == "true"
+    pad_ok = False
     ret_ok = False
+    pad = None
     if len(rets) == 1 and isinstance(rets[0][1], Rat):
         a = single_atom(rets[0][1])
-        ret_ok = a is not None and a.name == "argmax"
+        ret_ok = a is not None and a.name == "argmax" and rets[0][1].equals(Rat.from_atom(a))
+        if ret_ok:
+            va = single_atom(a.args[0])
+            if va is not None and va.name == "vec" and len(va.args) == 3 and va.args[1].equals(MARK) \
+                    and va.args[0].is_const() is not None and va.args[0].equals(va.args[2]):
+                pad_ok = True
+                pad = va.args[0]
+    range_ok = isinstance(lo, Rat) and lo.is_const() == 1 and isinstance(hi, Rat) and hi.equals(sym("n") - C(1))
+    one_app = len(apps) == 1 and apps[0].guard.kind == "true"
     if rule_range:
         if pad_ok and range_ok and one_app and ret_ok:
             res.ok(rule_range, "menger.knee", "argmax over [pad] + n-2 interior values + [same pad]: the first maximum is never the last index => index in [0, n-2]")
@@ -239,7 +249,7 @@ def menger(rc: RuleCtx, rule_range: Optional[str], rule_crit: Optional[str]):
                           f"pad ok={pad_ok}, range ok={range_ok} ({ast.unparse(loop.iter)}), one append={one_app}, argmax={ret_ok}",
                           "curvature = [0] + [k(i) for i in 1..n-2] + [0]; np.argmax(curvature)", construct="menger range")
     if rule_crit:
-        ok = pad_ok and head.items[0].is_zero() and one_app and range_ok and ret_ok
+        ok = pad_ok and pad.is_zero() and one_app and range_ok and ret_ok
         triple_ok = False
         if one_app and isinstance(apps[0].args[0], Rat):
             a = single_atom(apps[0].args[0])
@@ -337,28 +347,98 @@ def lmethod(rc: RuleCtx, rule_range: Optional[str], rule_crit: Optional[str], ru
             res.violation(rule_crit, fg.module, fg.name, loop, "the L-method step does not minimise the two-line fitting error over the split candidates 2..n-3",
                           f"candidates ok={cand_ok}; index' = {_short(idx_new, 120)}", "if current_error < error: error, index = current_error, i", construct="lmethod minimisation")
         _lmethod_error(rc, rule_crit)
-    # ---- knee(): forwards fit, visited-state variant ---------------------------------------
+    _lmethod_knee(rc, rule_range, rule_crit, rule_term)
+
+
+def _lmethod_knee(rc: RuleCtx, rule_range: Optional[str], rule_crit: Optional[str], rule_term: Optional[str]):
+    """lmethod.knee, one refinement iteration as a transfer function (per Refinement option):
+    the step runs on a prefix of the curve with the caller's fit option, and the loop has a variant."""
+    res = rc.res
     fi = rc.func("lmethod.knee")
     pre, loop, post = split_at_loop(fi, kind=(ast.While,))
-    calls = [c for c in ast.walk(loop) if isinstance(c, ast.Call) and isinstance(c.func, ast.Name) and c.func.id == "get_knee"]
-    if rule_crit:
-        fwd = len(calls) == 1 and ((len(calls[0].args) >= 3 and ast.unparse(calls[0].args[2]) == "fit") or any(kw.arg == "fit" and ast.unparse(kw.value) == "fit" for kw in calls[0].keywords))
-        if fwd:
-            res.ok(rule_crit, "lmethod.knee:fit", "the fit option is forwarded to every get_knee call")
-        else:
-            res.violation(rule_crit, fi.module, fi.name, loop, "lmethod.knee does not forward its `fit` option to get_knee (least-squares lines are silently replaced by endpoint lines)",
-                          ast.unparse(calls[0]) if calls else "", "get_knee(x[0:cutoff+1], y[0:cutoff+1], fit)", construct="lmethod fit forwarded")
-    if rule_range:
-        # the slice passed is x[0:cutoff+1]: a prefix, so the returned index is an index of the whole curve
-        pref = len(calls) == 1 and all(isinstance(a, ast.Subscript) and isinstance(a.slice, ast.Slice) and a.slice.lower is not None
-                                        and ast.unparse(a.slice.lower) == "0" for a in calls[0].args[:2])
-        if pref:
-            res.ok(rule_range, "lmethod.knee", "get_knee runs on a prefix x[0:cutoff+1]: its index is an index of the whole curve")
-        else:
-            res.violation(rule_range, fi.module, fi.name, loop, "lmethod.knee does not run the step on a prefix of the curve: the returned index is not in whole-curve coordinates",
-                          ast.unparse(calls[0]) if calls else "", "get_knee(x[0:cutoff+1], y[0:cutoff+1], ...)", construct="lmethod prefix")
-    if rule_term:
-        _visited_state(rc, rule_term, fi, loop)
+    members = rc.repo.mod("lmethod").classes["Refinement"].enum_members
+    reported = set()
+
+    def report(rule, key, *a, **k):
+        if (rule, key) not in reported:
+            reported.add((rule, key))
+            res.violation(rule, *a, **k)
+    oks = {"fit": 0, "prefix": 0, "variant": 0}
+    why_ok = ""
+    for it in members:
+        ev = rc.new_eval()
+        ev.no_inline.add("lmethod.get_knee")
+        pts = ev.point("points", True)
+        ev.len_map = {"points": sym("n")}
+        fit_v = ev.symbol("fit")
+        env = {"points": pts, "fit": fit_v, "it": Obj("enum", f"Refinement.{it}"), "limit": ev.symbol("limit")}
+        fr = Frame(ev, fi, 0)
+        try:
+            fr.block(pre, env, TRUE)
+            carried = [nme for nme in stored_names(loop) if nme in env]
+            benv = dict(env)
+            for nme in carried:
+                benv[nme] = ev.symbol(nme)
+            out = ev.eval_loop_body(fi, loop, benv)
+            frt = Frame(ev, fi, 0)
+            test = frt.cond(loop.test, dict(benv))
+        except Unsupported as e:
+            raise AnalysisError(f"lmethod.knee: refinement loop not modelled: {e}")
+        # ---- the step call -----------------------------------------------------------------
+        steps = {}
+        for v in list(out.env.values()) + [a_ for e in out.events for a_ in e.args]:
+            for g_, c_ in cases_of(v):
+                for x_ in (c_.items if isinstance(c_, Vec) else [c_]):
+                    if isinstance(x_, Rat):
+                        for a in x_.all_atoms():
+                            if a.kind == "fn" and a.name == "call:lmethod.get_knee":
+                                steps[a.skey] = a
+        if not steps:
+            raise AnalysisError("lmethod.knee: the refinement loop does not call get_knee - shape not recognised")
+        for a in steps.values():
+            names = list(a.extra) if isinstance(a.extra, tuple) else []
+            byname = dict(zip(names, a.args))
+            call_txt = _short(Rat.from_atom(a), 160)
+            if rule_crit:
+                if "fit" in byname and byname["fit"].equals(fit_v):
+                    oks["fit"] += 1
+                else:
+                    report(rule_crit, "fit", fi.module, fi.name, loop,
+                           "lmethod.knee does not forward its `fit` option to get_knee (least-squares lines are silently replaced by endpoint lines)",
+                           call_txt, "get_knee(x[0:cutoff+1], y[0:cutoff+1], fit)", construct="lmethod fit forwarded")
+            if rule_range:
+                pref = True
+                his = []
+                for nm, col in (("x", pts.items[0]), ("y", pts.items[1])):
+                    sa = single_atom(byname[nm]) if nm in byname else None
+                    if not (sa is not None and sa.name == "slice" and sa.args[0].equals(col) and
+                            (sa.args[1].symbols() == {"None"} or sa.args[1].is_zero())):
+                        pref = False
+                    else:
+                        his.append(sa.args[2])
+                if pref and len(his) == 2 and his[0].equals(his[1]):
+                    oks["prefix"] += 1
+                else:
+                    report(rule_range, "prefix", fi.module, fi.name, loop,
+                           "lmethod.knee does not run the step on a prefix of the curve: the returned index is not in whole-curve coordinates",
+                           call_txt, "get_knee(x[0:cutoff+1], y[0:cutoff+1], ...)", construct="lmethod prefix")
+        # ---- the variant ---------------------------------------------------------------------
+        if rule_term:
+            ok, why = _visited_state(rc, ev, fi, loop, env, benv, out, test, carried, frt)
+            if ok:
+                oks["variant"] += 1
+                why_ok = why
+            else:
+                report(rule_term, "variant", fi.module, fi.name, loop,
+                       "the L-method refinement loop has no variant: it exits only when two consecutive knees are equal (data dependent) and nothing bounds the "
+                       f"number of iterations - [Refinement.{it}] " + why, ast.unparse(loop.test),
+                       "a visited-state check (or another recognised variant) that forces termination", construct="lmethod loop variant")
+    if rule_crit and ("%s" % rule_crit, "fit") not in reported and oks["fit"]:
+        res.ok(rule_crit, "lmethod.knee:fit", "the fit option is forwarded to every get_knee call")
+    if rule_range and (rule_range, "prefix") not in reported and oks["prefix"]:
+        res.ok(rule_range, "lmethod.knee", "get_knee runs on a prefix x[0:cutoff+1]: its index is an index of the whole curve")
+    if rule_term and (rule_term, "variant") not in reported and oks["variant"] == len(members):
+        res.ok(rule_term, f"{fi.qualname}:variant", f"for each of {members}: " + why_ok)
 
 
 def _lmethod_error(rc: RuleCtx, rule: str):
@@ -422,102 +502,126 @@ def _lmethod_error(rc: RuleCtx, rule: str):
                               _short(err, 300), _short(want, 300), construct=f"compute_error {fit} {cost}")
 
 
-def _visited_state(rc: RuleCtx, rule: str, fi, loop: ast.While):
-    """E7(e): the loop exits when the tuple of all loop-carried variables that feed the next iteration
-    repeats; the tuple is recorded on every iteration; every component has a finite range."""
-    res = rc.res
-    # exit flag: a name tested negatively in the loop test and set to True when the state is already in the set
-    flag_names = [n.operand.id for n in ast.walk(loop.test) if isinstance(n, ast.UnaryOp) and isinstance(n.op, ast.Not) and isinstance(n.operand, ast.Name)]
-    def membership(expr):
-        """(tuple text list, set name, tuple node) when expr is `<tuple> in <name>`."""
-        if isinstance(expr, ast.Compare) and len(expr.ops) == 1 and isinstance(expr.ops[0], ast.In) and isinstance(expr.left, ast.Tuple) \
-                and isinstance(expr.comparators[0], ast.Name):
-            return [ast.unparse(e) for e in expr.left.elts], expr.comparators[0].id, expr.left
+def _bounded_int(ev, v, assume: set, env0, env1, depth=0) -> Optional[str]:
+    """None when `v` is an integer drawn from a finite range fixed by the inputs (n, limit); otherwise what is not."""
+    if isinstance(v, PW):
+        for _g, c in v.cases:
+            w = _bounded_int(ev, c, assume, env0, env1, depth)
+            if w:
+                return w
         return None
+    if not isinstance(v, Rat):
+        return f"{_short(v, 60)} is not a number"
+    if v.den != {(): 1}:
+        return f"{_short(v, 60)} is not an integer expression"
+    for m, c in v.num.items():
+        if Fraction(c).denominator != 1:
+            return f"{_short(v, 60)} has a fractional coefficient"
+        for at, _e in m:
+            w = _bounded_int_atom(ev, at, assume, env0, env1, depth)
+            if w:
+                return w
+    return None
 
-    found = None
-    for k, st in enumerate(loop.body):
-        m = None
-        if isinstance(st, ast.If) and not st.orelse:
-            m = membership(st.test)
-            sets_flag = any(isinstance(b, ast.Assign) and isinstance(b.targets[0], ast.Name) and b.targets[0].id in flag_names
-                            and isinstance(b.value, ast.Constant) and b.value.value is True for b in st.body)
-            if m is None or not sets_flag:
-                m = None
-        elif isinstance(st, ast.Assign) and isinstance(st.targets[0], ast.Name) and st.targets[0].id in flag_names:
-            v = st.value
-            m = membership(v)
-            if m is None and isinstance(v, ast.BoolOp) and isinstance(v.op, ast.Or):
-                for part in v.values:
-                    m = m or membership(part)
-        if m is not None:
-            found = (k, m[0], m[1], m[2])
-    ok = False
-    why = "no `if <state tuple> in <set>: <exit flag> = True` (or `<exit flag> = <state tuple> in <set>`) in the loop body"
-    if found is not None:
-        k, comps, setname, tup = found
-        adds = [j for j, b in enumerate(loop.body) if isinstance(b, ast.Expr) and isinstance(b.value, ast.Call) and ast.unparse(b.value.func) == f"{setname}.add"
-                and b.value.args and ast.unparse(b.value.args[0]) == ast.unparse(tup)]
-        rebound = any(isinstance(n, ast.Name) and isinstance(n.ctx, ast.Store) and n.id == setname for b in loop.body for n in ast.walk(b))
-        comp_names = {n.id for n in ast.walk(tup) if isinstance(n, ast.Name)}
-        # index of the last top-level statement that (re)binds a component of the state, or the exit flag to True/anything
-        last_assign = -1
-        for j, b in enumerate(loop.body):
-            if any(isinstance(n, ast.Name) and isinstance(n.ctx, ast.Store) and n.id in comp_names for n in ast.walk(b)):
-                last_assign = j
-        # the flag must not be reset to False after the membership test
-        reset_after = any(isinstance(n, ast.Assign) and isinstance(n.targets[0], ast.Name) and n.targets[0].id in flag_names
-                          and not (isinstance(n.value, ast.Constant) and n.value.value is True) and membership(n.value) is None
-                          for b in loop.body[k + 1:] for n in ast.walk(b))
-        if not adds:
-            why = "the visited state is not recorded unconditionally on every iteration"
-        elif rebound:
-            why = "the visited set is re-bound inside the loop"
-        elif min(adds) < k:
-            why = "the state is recorded before it is looked up: the lookup always succeeds"
-        elif last_assign >= k:
-            why = (f"a component of the state {comps} is re-assigned after the membership test (statement {last_assign + 1} of the body): the state that is "
-                   "looked up is not the state that is recorded / carried to the next iteration, so a repeated state is never recognised")
-        elif reset_after:
-            why = "the exit flag is overwritten after the membership test"
-        else:
-            # read-before-write analysis of the body: carried names read before being written
-            written = set()
-            rbw = set()
 
-            def scan(stmts, written):
-                for s_ in stmts:
-                    if isinstance(s_, ast.If):
-                        for n in ast.walk(s_.test):
-                            if isinstance(n, ast.Name) and isinstance(n.ctx, ast.Load) and n.id not in written:
-                                rbw.add(n.id)
-                        w1, w2 = set(written), set(written)
-                        scan(s_.body, w1)
-                        scan(s_.orelse, w2)
-                        written |= (w1 & w2)
-                        continue
-                    loads = [n for n in ast.walk(s_) if isinstance(n, ast.Name) and isinstance(n.ctx, ast.Load)]
-                    for n in loads:
-                        if n.id not in written:
-                            rbw.add(n.id)
-                    for n in ast.walk(s_):
-                        if isinstance(n, ast.Name) and isinstance(n.ctx, ast.Store):
-                            written.add(n.id)
-            scan(loop.body, written)
-            carried = {n.id for b in loop.body for n in ast.walk(b) if isinstance(n, ast.Name) and isinstance(n.ctx, ast.Store)}
-            feeding = (rbw & carried) - {setname} - set(flag_names)
-            missing = feeding - set(comps)
-            if missing:
-                why = f"the recorded state {comps} omits loop-carried variable(s) {sorted(missing)} that feed the next iteration"
-            else:
-                ok = True
-                why = f"state {comps} covers every loop-carried variable read before written ({sorted(feeding)}); looked up then recorded after its last update on every iteration; exit when it repeats"
-    if ok:
-        res.ok(rule, f"{fi.qualname}:variant", "visited-state idiom: " + why + "; components are integer knees / cut-offs bounded by the curve length => finitely many states")
-    else:
-        res.violation(rule, fi.module, fi.name, loop,
-                      "the L-method refinement loop has no variant: it exits only when two consecutive knees are equal (data dependent) and nothing bounds the number of iterations - "
-                      + why, ast.unparse(loop.test), "a visited-state check (or another recognised variant) that forces termination", construct="lmethod loop variant")
+def _bounded_real(ev, v: Rat, assume, env0, env1, depth) -> Optional[str]:
+    for den_m in v.den:
+        if den_m != ():
+            return f"{_short(v, 60)} divides by a variable quantity"
+    for at in v.atoms():
+        w = _bounded_int_atom(ev, at, assume, env0, env1, depth)
+        if w:
+            return w
+    return None
+
+
+def _bounded_int_atom(ev, at, assume, env0, env1, depth) -> Optional[str]:
+    if at.kind == "sym":
+        if at.name in ("n", "limit"):
+            return None            # the curve length; the (integer) limit parameter
+        if at.name in assume:
+            return None
+        if at.name in env1 and depth < 3:
+            # a loop-carried variable: bounded if its initial value and its update are (assuming it is)
+            a2 = set(assume) | {at.name}
+            return _bounded_int(ev, env0.get(at.name), a2, env0, env1, depth + 1) or _bounded_int(ev, env1.get(at.name), a2, env0, env1, depth + 1)
+        return f"{at.name} is not known to be a bounded integer"
+    if at.name in ("int", "floor", "ceil", "round"):
+        return _bounded_real(ev, at.args[0], assume, env0, env1, depth)
+    if at.name in ("max", "min"):
+        for a in at.args:
+            w = _bounded_int(ev, a, assume, env0, env1, depth)
+            if w:
+                return w
+        return None
+    if at.name == "len":
+        return None
+    if at.name == "item" and len(at.args) == 2 and at.args[1].is_zero():
+        inner = single_atom(at.args[0])
+        if inner is not None and inner.name == "call:lmethod.get_knee":
+            return None            # the step's split index: an index of its argument (K-range / M6)
+    return f"{_short(Rat.from_atom(at), 60)} is not known to be a bounded integer"
+
+
+def _visited_state(rc: RuleCtx, ev, fi, loop: ast.While, env, benv, out, test, carried, fr):
+    """Variant by visited states.  S is a set that only grows inside the loop; on every iteration that does not
+    raise the exit flag a tuple T is added to S that was not in S; T ranges over a finite set.  Hence at most |range(T)| + 1
+    iterations.  All facts are read off one evaluated iteration (a transfer function over the loop-carried state):
+      V1  S is bound before the loop, never re-bound in it, and mutated only by S.add(...)
+      V2  test and not flag'  =>  (the add is executed) and not (T in S)
+      V3  the tuple that is looked up is the tuple that is added, looked up in S as it was when the iteration started
+      V4  test => not flag  (a raised flag ends the loop)
+      V5  every component of T is an integer from a finite range fixed by the inputs"""
+    adds = [e for e in out.events if e.kind == "add"]
+    if not adds:
+        return False, "no state is recorded in a set inside the loop body"
+    last_why = ""
+    for ad in adds:
+        S = ad.target
+        if S not in benv or S in carried:
+            last_why = f"the visited set {S} is re-bound inside the loop (or not created before it)"
+            continue
+        if any(e.kind in ("remove", "clear", "update", "discard", "pop") and e.target == S for e in out.events):
+            last_why = f"the visited set {S} is also shrunk / rewritten inside the loop"
+            continue
+        T = ad.args[0]
+        # V3: membership facts about exactly this tuple on the entry value of S
+        ms = []
+        for key, (a, b) in ev.in_registry.items():
+            if veq(b, benv[S]) and veq(a, T):
+                ms.append(G("atom", key[1]) if isinstance(key, tuple) and key and key[0] == "atom" else None)
+        ms = [m for m in ms if m is not None]
+        if not ms:
+            other = [1 for key, (a, b) in ev.in_registry.items() if veq(a, T) or veq(b, benv[S])]
+            last_why = ("the state that is looked up is not the state that is recorded, or it is looked up only after it was recorded: "
+                        f"no test `{_short(T, 80)} in {S}` on the set as it was when the iteration started" + (" (a different membership test exists)" if other else ""))
+            continue
+        # V4 / V2
+        flags = [nme for nme in carried if g_implies(test, g_not(fr.truth(benv[nme]))) and nme in out.env]
+        if not flags:
+            last_why = "the loop test has no exit flag (a carried variable that must be false for the loop to continue)"
+            continue
+        done = False
+        for f in flags:
+            raised = fr.truth(out.env[f])
+            for m in ms:
+                if g_implies(g_and(test, g_not(raised)), g_and(ad.guard, g_not(m))):
+                    done = (f, m)
+        if not done:
+            last_why = (f"an iteration can continue (exit flag {flags} not raised) although the state was already visited, or without recording the new state: "
+                        f"flag' = {_short(out.env[flags[0]], 120)}; recorded under {_short(ad.guard, 80)}")
+            continue
+        # V5
+        comps = T.items if isinstance(T, Vec) else [T]
+        bad = None
+        for c in comps:
+            bad = bad or _bounded_int(ev, c, set(), env, out.env)
+        if bad:
+            last_why = f"the recorded state does not range over a finite set: {bad}"
+            continue
+        return True, (f"visited-state variant: every iteration that does not raise `{done[0]}` adds a new tuple {_short(T, 90)} to `{S}` (looked up on the entry "
+                      "set, then recorded); the components are bounded integers => finitely many states")
+    return False, last_why
 
 
 # --------------------------------------------------------------------------
